@@ -268,7 +268,7 @@ Qed.
 
 (* ------------------------------------------------------------------ effect on held queues and control fields *)
 Definition heldm (t : table) (a : addr) : list (list N) := map snd (n_held (get t a)).
-Definition grp_of (a : addr) (g : group) : list (list N) := if addr_eqb a (fst g) then snd g else [].
+Definition grp_of (a : addr) (g : group) : list (list N) := if addr_eqb a (fst g) then map snd (snd g) else [].
 Definition grps_of (a : addr) (gs : list group) : list (list N) := flat_map (grp_of a) gs.
 
 Definition ctl_same (t t' : table) : Prop := forall b, same_ctl (get t b) (get t' b).
@@ -329,7 +329,7 @@ Lemma try_queued_loop_spec fuel : forall t a now acc,
   let '(t', ms) := try_queued_loop fuel t a now acc in
   ctl_same t t' /\
   (forall b, b <> a -> heldm t' b = heldm t b) /\
-  (exists rel, ms = acc ++ rel /\ heldm t a = rel ++ heldm t' a /\ (rel <> [] -> unblocked t a)).
+  (exists rel, ms = acc ++ rel /\ heldm t a = map snd rel ++ heldm t' a /\ (rel <> [] -> unblocked t a)).
 Proof.
   induction fuel as [|f IH]; intros t a now acc; cbn [try_queued_loop].
   - split; [apply ctl_same_refl|]. split; [reflexivity|]. exists []. rewrite app_nil_r.
@@ -340,22 +340,22 @@ Proof.
     assert (Hh1 : forall b, heldm t1 b = heldm t b).
     { intros b. destruct (Hsame b) as [(_&_&F) _]. unfold heldm. rewrite F. reflexivity. }
     assert (Hstop : ctl_same t t1 /\ (forall b, b <> a -> heldm t1 b = heldm t b) /\
-              (exists rel, acc = acc ++ rel /\ heldm t a = rel ++ heldm t1 a /\ (rel <> [] -> unblocked t a))).
+              (exists rel, acc = acc ++ rel /\ heldm t a = map snd rel ++ heldm t1 a /\ (rel <> [] -> unblocked t a))).
     { split; [exact Hc1|]. split; [intros; apply Hh1|]. exists []. rewrite app_nil_r, Hh1.
       split; [reflexivity|]. split; [reflexivity|]. intros H; congruence. }
     destruct ready; [|exact Hstop].
     destruct (n_held (get t1 a)) as [|[ty m] rest] eqn:Eh; [exact Hstop|].
     destruct (n_used (get t1 a) + resp_size ty <=? response_limit) eqn:E; [|exact Hstop].
     set (v1 := add_response (with_flow (get t1 a) (n_used (get t1 a)) (n_resp (get t1 a)) rest) ty now).
-    specialize (IH (store t1 a v1) a now (acc ++ [m])).
-    destruct (try_queued_loop f (store t1 a v1) a now (acc ++ [m])) as [t' ms].
+    specialize (IH (store t1 a v1) a now (acc ++ [(ty, m)])).
+    destruct (try_queued_loop f (store t1 a v1) a now (acc ++ [(ty, m)])) as [t' ms].
     destruct IH as (Hc & Hh & rel & Hms & Hheld & Hub).
     assert (Hcs : ctl_same t1 (store t1 a v1)).
     { apply ctl_same_store. unfold v1. eapply same_ctl_trans; [|apply add_response_ctl]. repeat split. }
     split; [eapply ctl_same_trans; [exact Hc1|]; eapply ctl_same_trans; [exact Hcs|exact Hc]|].
     split.
     + intros b Hb. rewrite Hh by exact Hb. unfold heldm. rewrite get_store_other by congruence. apply Hh1.
-    + exists (m :: rel). split; [rewrite Hms, <- app_assoc; reflexivity|]. split.
+    + exists ((ty, m) :: rel). split; [rewrite Hms, <- app_assoc; reflexivity|]. split.
       * rewrite <- Hh1. unfold heldm at 1. rewrite Eh. cbn [map snd app]. f_equal.
         rewrite <- Hheld. unfold heldm. rewrite get_store_same. unfold v1. rewrite add_response_held. reflexivity.
       * intros _. apply Hready. reflexivity.
